@@ -224,6 +224,20 @@ def conditions_at(prov, facts, fn, bid):
     return out
 
 
+def ret_carriers(fn):
+    """locals whose value becomes the function's result through plain moves"""
+    rc = {0}
+    grew = True
+    while grew:
+        grew = False
+        for b2, i2, st2 in fn.stmts():
+            if st2["k"] == "assign" and not st2["dst"]["p"] and st2["dst"]["l"] in rc and st2["rv"]["k"] == "use" and \
+                    st2["rv"]["op"].get("k") in ("copy", "move") and not st2["rv"]["op"]["place"]["p"] and st2["rv"]["op"]["place"]["l"] not in rc:
+                rc.add(st2["rv"]["op"]["place"]["l"])
+                grew = True
+    return rc
+
+
 def error_fate(prov, fn, cb):
     """what happens to the error of the Result-returning call that terminates block `cb` of `fn`.
     Returns a dict: edges (the Err/Break edges of the switches on this call's result), continues (an error edge can
@@ -244,15 +258,24 @@ def error_fate(prov, fn, cb):
     nxt = [b for b, c in fn.calls() if c["callee"]["key"] in ("std::iter::Iterator::next", "std::iter::DoubleEndedIterator::next_back")]
     continues = False
     ok_reachable = False
+    # (the result may travel through temporaries - what a spliced helper's `return` leaves behind: `tmp = <value>; ..; _0 = move tmp` -
+    #  so every definition of such a carrier that an error edge can reach counts, and the moves between carriers do not)
+    rc = ret_carriers(fn)
     for e in edges:
         reach = cfg.reachable_from(e)
         if any(b in reach for b in nxt):
             continues = True
         for b2, i2, st in fn.stmts():
-            if b2 in reach and st["k"] == "assign" and st["dst"]["l"] == 0 and not st["dst"]["p"]:
+            if b2 in reach and st["k"] == "assign" and st["dst"]["l"] in rc and not st["dst"]["p"]:
+                rv0 = st["rv"]
+                if rv0["k"] == "use" and rv0["op"].get("k") in ("copy", "move") and not rv0["op"]["place"]["p"] and rv0["op"]["place"]["l"] in rc:
+                    continue
                 o = peel(prov.rvalue(fn, st["rv"], (b2, i2)))
                 if not (o[0] == "call" and o[1].endswith("FromResidual::from_residual")) and not (o[0] == "agg" and o[1].endswith("Result::Err")):
                     ok_reachable = True
+        for b2, t2 in fn.calls():
+            if b2 in reach and t2["dst"] and not t2["dst"]["p"] and t2["dst"]["l"] in rc and not t2["callee"]["key"].endswith("FromResidual::from_residual"):
+                ok_reachable = True
     direct = False
     if t["k"] == "call":
         if t["dst"]["l"] == 0 and not t["dst"]["p"]:
